@@ -24,7 +24,9 @@ impl Subset for Hmtx<'_> {
         let h_metrics = self.h_metrics();
         let side_bearings = self.left_side_bearings();
 
-        let last_gid = plan.num_output_glyphs - 1;
+        let Some(last_gid) = plan.num_output_glyphs.checked_sub(1) else {
+            return Err(SubsetTableError(Hmtx::TAG));
+        };
         if last_gid >= h_metrics.len() + side_bearings.len() {
             return Err(SubsetTableError(Hmtx::TAG));
         }
